@@ -416,3 +416,44 @@ int __wrap_pthread_mutex_unlock(pthread_mutex_t *m) {
     }
     return r;
 }
+
+/* std::shared_mutex / std::shared_timed_mutex are header-only wrappers around pthread_rwlock_*: same cooperative scheme,
+ * so that generated code using them is scheduled by the baton instead of blocking the baton holder for real. */
+int __real_pthread_rwlock_rdlock(pthread_rwlock_t *l);
+int __real_pthread_rwlock_wrlock(pthread_rwlock_t *l);
+int __real_pthread_rwlock_tryrdlock(pthread_rwlock_t *l);
+int __real_pthread_rwlock_trywrlock(pthread_rwlock_t *l);
+int __real_pthread_rwlock_unlock(pthread_rwlock_t *l);
+
+static int rw_acquire(pthread_rwlock_t *l, int write) {
+    sim_yield(YK_LOCK);
+    for (;;) {
+        int r = write ? __real_pthread_rwlock_trywrlock(l) : __real_pthread_rwlock_tryrdlock(l);
+        if (r == 0) return 0;
+        if (r != EBUSY) return r;   /* EDEADLK etc. are the program's business */
+        g_contended++;
+        block_on(WK_MUTEX, (long)l, YK_LOCK);
+    }
+}
+
+int __wrap_pthread_rwlock_rdlock(pthread_rwlock_t *l) {
+    if (!sim_active()) return __real_pthread_rwlock_rdlock(l);
+    return rw_acquire(l, 0);
+}
+
+int __wrap_pthread_rwlock_wrlock(pthread_rwlock_t *l) {
+    if (!sim_active()) return __real_pthread_rwlock_wrlock(l);
+    return rw_acquire(l, 1);
+}
+
+int __wrap_pthread_rwlock_tryrdlock(pthread_rwlock_t *l) { return __real_pthread_rwlock_tryrdlock(l); }
+int __wrap_pthread_rwlock_trywrlock(pthread_rwlock_t *l) { return __real_pthread_rwlock_trywrlock(l); }
+
+int __wrap_pthread_rwlock_unlock(pthread_rwlock_t *l) {
+    int r = __real_pthread_rwlock_unlock(l);
+    if (sim_active()) {
+        wake_waiters(WK_MUTEX, (long)l, 0);
+        sim_yield(YK_UNLOCK);
+    }
+    return r;
+}
